@@ -18,6 +18,41 @@ CLAIMED = {
    ref="DESIGN.md section 3, C20"),
 }
 
+MACH_NOTE = COMMON_NOTE + ("The machine takes proposals, model outputs and accept/swap decisions as inputs (the decision formulas are C01/C03); "
+             "values are abstract (the machine only copies them). Python object/numpy semantics as rendered by the model are tied to the "
+             "code only through the correspondence run.")
+CLAIMED.update({
+ 'C06': dict(
+   text="Theorem by induction over operation lists about the Gallina chain/parallel-tempered machine: any schedule of run(n)/clear() makes "
+        "the same records, model calls, iteration count, current state and swap decisions as one uninterrupted run (ghost-state refinement), "
+        "because every read of the retained history returns the last record whatever lastclear and the scratch layout are. The model is "
+        "validated on every run against real MH/PT samplers (observations after every operation), and the property itself is checked on the "
+        "same real traces against an identically seeded uninterrupted twin. The swap-history VIEW is refuted in Coq and reported as a known finding.",
+   note=MACH_NOTE, technique="Coq proof (history invariant + ghost-state simulation by induction over op lists) + vm_compute correspondence",
+   ref="DESIGN.md section 3, C06"),
+ 'C08': dict(
+   text="Machine-checked history invariant (retained arrays = suffix of everything recorded, len = iteration - lastclear, start triple after a "
+        "clear = last record) preserved by steps, scratch growth, clears and temperature sweeps for every input stream; per-index access theorem "
+        "for every index in [-len,len); record rule (accepted = proposal with the model's outputs, rejected = previous record, -inf prior never "
+        "accepted). Tied to the code by the machine correspondence; on the same traces every access path is read and the pure model re-evaluated.",
+   note=MACH_NOTE + " Genuineness of blobs and across sweeps is covered by C09_permutes and the correspondence (C08_genuine_partial is per level).",
+   technique="Coq proof (invariant by induction over operations) + vm_compute correspondence", ref="DESIGN.md section 3, C08"),
+ 'C09': dict(
+   text="Theorems: sweep iff iteration is a multiple of the swap interval (and >1 level); the code's index array equals the fold of adjacent "
+        "exchanges from the hottest pair down, is a permutation and moves a colder state up at most one level (all ladder sizes, all decision "
+        "lists); after the sweep level t holds position/stats/blob/active set of level swap_index[t], acceptance records and call logs "
+        "untouched; invariant preserved. The 'one visible row per sweep since the last clear' clause is refuted in Coq for the code as it is "
+        "(known finding D3). Correspondence against real swap_temperatures() calls captured before/after.",
+   note=MACH_NOTE, technique="Coq proof (refinement of the index array to adjacent exchanges, permutation, invariant) + vm_compute correspondence",
+   ref="DESIGN.md section 3, C09"),
+ 'C18': dict(
+   text="The machine carries the model-call log as ghost state; theorems: a step appends exactly one call at its proposed point with the values it "
+        "may record, set-start exactly one, sweeps/clear/scratch growth/set_state none, and after any schedule of runs and clears every level's log "
+        "grew by exactly the number of iterations. Correspondence compares the real probe model's call log after every operation, with all read "
+        "accessors touched in between (componentwise extras counted separately).",
+   note=MACH_NOTE, technique="Coq proof (ghost call log, induction over op lists) + vm_compute correspondence", ref="DESIGN.md section 3, C18"),
+})
+
 PENDING_REASON = "not yet claimed: model/theorems for this property are still being built (see DESIGN.md section 3); nothing is asserted about it"
 
 def main():
